@@ -14,6 +14,7 @@ import LW.Spec.Misc
 import LW.Spec.Frag
 import LW.Known
 import LW.Driver.AppVerdict
+import LW.Driver.BackendVerdict
 namespace LW.Driver
 open LW LW.Canon
 
@@ -613,7 +614,8 @@ def verdicts (st : DState) (op : String) (args : List String) (goRes : String) :
              | none => [("*", "unparsable-result")])
           | _ => [])
        | _, _, _ => [])
-    | _, _ => if AppOps.isAppOp op then AppVerdict.verdicts E op args res else []
+    | _, _ => if AppOps.isAppOp op then AppVerdict.verdicts E op args res
+              else if BackendOps.isBackendOp op then BackendVerdict.verdicts E op args res else []
 
 def verdict (prop : String) (st : DState) (op : String) (args : List String) (goRes : String) : String :=
   let vs := (verdicts st op args goRes).filter (fun (p, v) => (p == prop || p == "*") && v != "ok")
